@@ -79,6 +79,11 @@ func c18Body(c c18cfg, controlled bool, leak *map[string]int) func(w *World) {
 		// a sub-path service on the same host: its TLS flags are re-synced from s1 whenever the table is rebuilt
 		w.AddTarget("sub:80")
 		w.Deploy(deployArgs("s4", []string{"sub:80"}, []string{host}, []string{"/sub"}))
+		// a service on a wildcard host: names resolved through it take the wildcard branch of the lookup
+		if c.clients == "wildcard" {
+			w.AddTarget("wild:80")
+			w.Deploy(deployArgs("s5", []string{"wild:80"}, []string{"*.w.example.com"}, nil))
+		}
 		w.RolloutDeploy("s1", []string{"ra:80"})
 		w.RolloutSet("s1", 50, []string{"v"})
 		if c.pre == "paused" {
@@ -118,6 +123,10 @@ func c18Body(c c18cfg, controlled bool, leak *map[string]int) func(w *World) {
 			spawn("client", func() { w.Do(ReqSpec{ID: "c-plain", Host: host}) })
 		case "one-cookie":
 			spawn("client", func() { w.Do(ReqSpec{ID: "c-cookie", Host: host, Cookie: "kamal-rollout=v"}) })
+		case "wildcard":
+			spawn("client", func() { w.Do(ReqSpec{ID: "c-w1", Host: "x.w.example.com"}) })
+			spawn("client", func() { w.Do(ReqSpec{ID: "c-w2", Host: "y.w.example.com"}) })
+			spawn("client", func() { w.Do(ReqSpec{ID: "c-w3", Host: "x.w.example.com:8080", Path: "/again"}) })
 		case "subpath":
 			spawn("client", func() { w.Do(ReqSpec{ID: "c-sub1", Host: host, Path: "/sub/x"}) })
 			spawn("client", func() { w.Do(ReqSpec{ID: "c-sub2", Host: host, Path: "/sub/y", Plan: "delay=200ms"}) })
@@ -194,7 +203,7 @@ func c18Configs(tier string) []c18cfg {
 			if j < i {
 				continue
 			}
-			for k, cl := range []string{"plain+cookie", "upgrade+plain", "slow", "cookie+cookie", "subpath"} {
+			for k, cl := range []string{"plain+cookie", "upgrade+plain", "slow", "cookie+cookie", "subpath", "wildcard"} {
 				if tier == "quick" && (i+j+k)%3 != 0 {
 					continue
 				}
@@ -297,7 +306,7 @@ func checkC18(t *testing.T, job *Job, res *Result) {
 		res.Gen = &GenStats{Evaluations: 1}
 		return
 	}
-	res.Rule = "engine S: every unordered pair of {deploy, redeploy with other hosts/paths, rollout deploy/set/stop, pause, stop, resume, remove, list, deploy of another service, conflicting deploy} running concurrently on a service with active+rollout targets and a split, with client threads {plain+cookie, established upgrade + slow request, slow + POST, two percentage-decided cookie requests, requests to a sub-path service of the same host}, plus every single command with a single plain or opted-in request, from running, from paused and with probe results that change the deployed targets' state arriving at the instant the commands start; every schedule within the bounds; monitored: panic in any thread (incl. unlock of an unlocked mutex), deadlock (no thread enabled, none can be woken), hang (command or request unfinished at the horizon); engine H: every command (succeeding and failing) in every state reached by histories up to the depth bound; the data-race clause is covered by a separate free-running -race pass reported under race_pass (not exhaustive)"
+	res.Rule = "engine S: every unordered pair of {deploy, redeploy with other hosts/paths, rollout deploy/set/stop, pause, stop, resume, remove, list, deploy of another service, conflicting deploy} running concurrently on a service with active+rollout targets and a split, with client threads {plain+cookie, established upgrade + slow request, slow + POST, two percentage-decided cookie requests, requests to a sub-path service of the same host, requests to names served through a wildcard host}, plus every single command with a single plain or opted-in request, from running, from paused and with probe results that change the deployed targets' state arriving at the instant the commands start; every schedule within the bounds; monitored: panic in any thread (incl. unlock of an unlocked mutex), deadlock (no thread enabled, none can be woken), hang (command or request unfinished at the horizon); engine H: every command (succeeding and failing) in every state reached by histories up to the depth bound; the data-race clause is covered by a separate free-running -race pass reported under race_pass (not exhaustive)"
 	if job.Replay == nil || job.Replay.Engine == "S" {
 		var scs []*Scenario
 		for i, c := range c18Configs(tier) {
